@@ -354,6 +354,12 @@ def small_universe(level=1):
     res.append(S([]))
     res.append(S([VA(U(8), 255)]))
     res.append(S([VA(U(8), 256)]))
+    # capacities below, in the upper half of and next to the top of the 8-bit prefix's range (a check that is "dead" for some of them is dead for none)
+    res.append(S([VA(U(8), 127), U(8)]))
+    res.append(S([VA(U(8), 128), B()]))
+    res.append(S([U(3), VA(U(8), 200), U(5)]))
+    res.append(S([VA(I(16), 129)]))
+    res.append(UN([VA(U(8), 254), U(8)]))
     res.append(S([VA(B(), 300), I(7)]))
     res.append(UN([U(8), U(16, False)], sealed=False, slack=1))
     return res
@@ -585,7 +591,7 @@ def _parse(t, bits, pos, out):
             if pos + pw > len(bits):
                 return None
             n = sum(b << i for i, b in enumerate(bits[pos:pos + pw]))
-            out.append(["bits", bits[pos:pos + pw]])
+            out.append(["bits", bits[pos:pos + pw], ("len", t["cap"], pw)])
             pos += pw
             if n > t["cap"]:
                 return None
@@ -636,7 +642,7 @@ def _parse_body(t, bits, pos, out):
         if pos + tw > len(bits):
             return None
         tag = sum(b << i for i, b in enumerate(bits[pos:pos + tw]))
-        out.append(["bits", bits[pos:pos + tw]])
+        out.append(["bits", bits[pos:pos + tw], ("tag", len(t["fields"]) - 1, tw)])
         pos += tw
         if tag >= len(t["fields"]):
             return None
@@ -699,4 +705,40 @@ def evolve(t, data, rng, limit=6):
             out = _emit(tk)
             res.append((bytes(sum(out[i + j] << j for j in range(8)) for i in range(0, len(out), 8)), "evolved-longer" if grow else "evolved-shorter"))
     rng.shuffle(res)
-    return res[:limit]
+    return res[:limit] + invalidate(toks)
+
+
+def _flat(tokens, acc):
+    for tok in tokens:
+        if tok[0] == "delim":
+            _flat(tok[1], acc)
+        else:
+            acc.append(tok)
+    return acc
+
+
+def invalidate(toks, limit=6):
+    """representations the specification declares INVALID, made from a valid one: one array length prefix set to capacity + 1 and to the largest value
+    the prefix can carry, one union tag set to the option count and to the largest value of its field - with everything behind it unchanged, and cut
+    right behind the altered field (what follows is then implicit zeros).  Systematic for every capacity: whether a capacity is below, in the upper half of,
+    or at the top of its prefix's range must not matter.  Stimuli only."""
+    import copy
+
+    res = []
+    marks = [i for i, tok in enumerate(_flat(toks, [])) if len(tok) > 2][:limit]
+    for i in marks:
+        kind, top, w = _flat(toks, [])[i][2]
+        for val in sorted({top + 1, (1 << w) - 1}):
+            if val <= top or val >= (1 << w):
+                continue
+            tk = copy.deepcopy(toks)
+            flat = _flat(tk, [])
+            flat[i][1] = [(val >> b) & 1 for b in range(w)]
+            out = _emit(tk)
+            whole = bytes(sum(out[k + j] << j for j in range(8)) for k in range(0, len(out) - len(out) % 8, 8))
+            res.append((whole, "bad-" + kind))
+            # cut right behind the altered field (only when it is not inside a length-delimited object, whose header would no longer fit)
+            if not any(t0[0] == "delim" for t0 in tk):
+                upto = sum(len(t0[1]) for t0 in flat[:i + 1])
+                res.append((whole[:(upto + 7) // 8], "bad-" + kind + "-cut"))
+    return res
